@@ -220,6 +220,50 @@ def c02_r4(ctx: Ctx, rule):
                 res.fail(rule.id, "optional-unguarded::%s::%s" % (q, norm(n)), ctx.loc(q, n),
                          "%s uses %s, which lxml returns as None for an empty element / an unprefixed tag, without a None test" % (short(q), norm(n)),
                          "prov:value=\"\" reloads as the string 'None' (or is dropped); an attribute element in the default namespace resolves as 'None:name'")
+    # getparent() is an Optional too: a comment or processing instruction that stands before (or after) the root element has no
+    # parent.  Everywhere in the XML codec, the result of getparent() is None-tested before it is used.
+    for q, fi in ctx.p.functions.items():
+        if fi.module != XM or isinstance(fi.node, ast.Lambda):
+            continue
+        parents = {}
+        for a in ast.walk(fi.node):
+            for ch in ast.iter_child_nodes(a):
+                parents[id(ch)] = a
+        for c in calls_in(fi.node):
+            if not (isinstance(c.func, ast.Attribute) and c.func.attr == "getparent" and not c.args):
+                continue
+            uses = []
+            p0 = parents.get(id(c))
+            if isinstance(p0, ast.Attribute):
+                uses.append((p0, None))  # x.getparent().remove(..)
+            elif isinstance(p0, ast.Assign) and len(p0.targets) == 1 and isinstance(p0.targets[0], ast.Name):
+                nm = p0.targets[0].id
+                for x in walk_function(fi.node):
+                    if isinstance(x, ast.Attribute) and isinstance(x.value, ast.Name) and x.value.id == nm and isinstance(x.ctx, ast.Load):
+                        uses.append((x, nm))
+            for u, nm in uses:
+                guarded = False
+                cur = u
+                while nm and id(cur) in parents and not guarded:
+                    p = parents[id(cur)]
+                    if isinstance(p, (ast.If, ast.IfExp)) and nm in norm(p.test) and "None" in norm(p.test):
+                        in_body = any(x is u for b in (p.body if isinstance(p, ast.If) else [p.body]) for x in ast.walk(b))
+                        positive = "is not None" in norm(p.test)
+                        guarded = in_body == positive
+                    if isinstance(p, ast.BoolOp) and isinstance(p.op, ast.And) and any(norm(v) == "%s is not None" % nm for v in p.values):
+                        guarded = True
+                    for fld in ("body", "orelse"):
+                        blk = getattr(p, fld, None)
+                        if isinstance(blk, list) and cur in blk:
+                            for st in blk[:blk.index(cur)]:
+                                if isinstance(st, ast.If) and norm(st.test) == "%s is None" % nm and st.body and isinstance(st.body[-1], (ast.Continue, ast.Return, ast.Break, ast.Raise)):
+                                    guarded = True
+                    cur = p
+                res.ob("%s: the result of %s is used (%s): %s" % (short(q) if q.count(".") > 2 else q, norm(c), norm(u)[:30], "guarded" if guarded else "UNGUARDED"))
+                if not guarded:
+                    res.fail(rule.id, "optional-unguarded::%s::%s" % (q, norm(c)), ctx.loc(q, u),
+                             "%s uses the result of %s without a None test: a comment or processing instruction outside the root element has no parent" % (short(q) if q.count(".") > 2 else q, norm(c)),
+                             "<?xml ..?><!-- generated by X --><prov:document ..>: loading raises AttributeError: 'NoneType' object has no attribute 'remove' (not a library error)")
     return res
 
 
@@ -835,6 +879,62 @@ RULES.setdefault("C11", []).append(Rule("C11.R17", "a language-tagged literal's 
                                         "foreign JSON forms load completely and re-serialise to the same document"))
 
 
+# ------------------------------------------------------------------------------------------ C02.R21: a bare name may contain a colon
+def xml_bare_name_rule(ctx: Ctx, rule):
+    """The XML writer prints a name of the default namespace as its bare local part, and a local part may contain ':'
+    (`2024-05-01T12:00:00`).  In the reader's name resolver, the case "text before the colon is not a declared prefix" therefore
+    still reaches the default-namespace resolution: on the CFG, from the undeclared side of the `prefix in nsmap` test there is a
+    path to a return that resolves in `nsmap[None]`."""
+    from ..inline import inlined_function
+    res = RuleResult()
+    q = XM + ".xml_qname_to_QualifiedName"
+    if q not in ctx.p.functions:
+        raise AnalysisError("anchor vanished: function %s" % q)
+    f = inlined_function(ctx, q)
+    g = cfgmod.build(f.node)
+    tests = []
+    for n in g.nodes:
+        if n.kind != "test" or n.stmt is None:
+            continue
+        t = n.stmt.test
+        neg = False
+        while isinstance(t, ast.UnaryOp) and isinstance(t.op, ast.Not):
+            t, neg = t.operand, not neg
+        if isinstance(t, ast.Compare) and len(t.ops) == 1 and isinstance(t.ops[0], (ast.In, ast.NotIn)) and "nsmap" in norm(t.comparators[0]) and not (isinstance(t.left, ast.Constant) and t.left.value is None):
+            declared_label = "true" if isinstance(t.ops[0], ast.In) != neg else "false"
+            tests.append((n, "false" if declared_label == "true" else "true"))
+    default_returns = [n for n in g.nodes if isinstance(n.stmt, ast.Return) and n.stmt.value is not None]
+    def in_default(n):
+        # a return under `None in ..nsmap`, or built from nsmap[None]
+        if any(isinstance(x, ast.Subscript) and "nsmap" in norm(x.value) and isinstance(x.slice, ast.Constant) and x.slice.value is None for x in ast.walk(n.stmt)):
+            return True
+        for t in walk_function(f.node):
+            if isinstance(t, ast.If) and "None in" in norm(t.test) and "nsmap" in norm(t.test) and any(x is n.stmt for b in t.body for x in ast.walk(b)):
+                return True
+            if isinstance(t, ast.If) and "None not in" in norm(t.test) and "nsmap" in norm(t.test) and t.body and isinstance(t.body[-1], ast.Raise):
+                # guard clause: everything after it is the default-namespace case
+                return any(x is n.stmt for x in ast.walk(f.node)) and n.stmt.lineno > t.lineno
+        return False
+    default_returns = [n for n in default_returns if in_default(n)]
+    if not tests or not default_returns:
+        raise AnalysisError("xml_qname_to_QualifiedName: prefix test (%d) / default-namespace return (%d) not found" % (len(tests), len(default_returns)))
+    for tn, undeclared in tests:
+        starts = [m for m, lab in tn.succ if lab == undeclared]
+        ok = any(s0 is d or g.find_path(s0, d, labels_excluded=("exc", "raise")) is not None for s0 in starts for d in default_returns)
+        res.ob("`%s`: an undeclared prefix still reaches the default-namespace resolution: %s" % (norm(tn.stmt.test)[:50], ok))
+        if not ok:
+            res.fail(rule.id, "colon-in-bare-name-rejected", ctx.loc(q, tn.stmt),
+                     "when the text before ':' is not a declared prefix (`%s`), the resolver never tries the default namespace" % norm(tn.stmt.test)[:50],
+                     "default namespace http://example.org/runs/ and the identifier '2024-05-01T12:00:00' in it: written prov:id=\"2024-05-01T12:00:00\", the reload raises (or resolves elsewhere)")
+    return res
+
+
+RULES.setdefault("C02", []).append(Rule("C02.R21", "a bare name containing ':' (text before the colon is no declared prefix) is resolved in the default namespace", 1, xml_bare_name_rule, "F-PATH",
+                                        "names in a default namespace keep their URI whatever characters their local part holds"))
+RULES.setdefault("C11", []).append(Rule("C11.R21", "a bare name containing ':' is resolved in the default namespace (shared with C02.R21)", 1, xml_bare_name_rule, "F-PATH",
+                                        "foreign XML with such names loads and re-serialises to the same document"))
+
+
 # ------------------------------------------------------------------------------------------ C02.R18: character substitution in the XML codec spares every XML character
 XML_CHAR_RANGES = [(0x9, 0xA), (0xD, 0xD), (0x20, 0xD7FF), (0xE000, 0xFFFD), (0x10000, 0x10FFFF)]  # XML 1.0, production [2] Char
 
@@ -1195,3 +1295,120 @@ def c07_r14(ctx: Ctx, rule):
 
 RULES.setdefault("C07", []).append(Rule("C07.R14", "decode_container creates records on its container only; triple removals never run with a None (wildcard) subject", 1, c07_r14, "F-PATH",
                                         "relations come back in the bundle they were written in; writing a revision never deletes other relations' triples"))
+
+
+# ------------------------------------------------------------------------------------------ C01.R20: the "$" member is a value, not a flag
+def json_value_truthiness(ctx: Ctx, rule):
+    """In PROV-JSON a typed value is {"$": v, "type"|"lang": ..}; v may be 0, 0.0, false or "" (the writer emits exactly that for
+    an int 0 or an empty language-tagged string).  In the JSON reader, a name bound to the "$" member is therefore never used as a
+    truth value (if / and / or / not): presence is decided with `in` / `is None`."""
+    res = RuleResult()
+    rq = JS + ".decode_json_representation"
+    if rq not in ctx.p.functions:
+        raise AnalysisError("anchor vanished: function %s" % rq)
+    n_names = 0
+    for q in ctx.helper_closure(JS + ".decode_json_container", 2) + [rq]:
+        fi = ctx.p.functions.get(q)
+        if fi is None or fi.module != JS or isinstance(fi.node, ast.Lambda):
+            continue
+        names = set()
+        for a in walk_function(fi.node):
+            if isinstance(a, ast.Assign) and len(a.targets) == 1 and isinstance(a.targets[0], ast.Name):
+                v = a.value
+                key = None
+                if isinstance(v, ast.Subscript) and isinstance(v.slice, ast.Constant):
+                    key = v.slice.value
+                elif isinstance(v, ast.Call) and call_name(v) in ("get", "pop") and v.args and isinstance(v.args[0], ast.Constant):
+                    key = v.args[0].value
+                if key == "$":
+                    names.add(a.targets[0].id)
+        if not names:
+            continue
+        n_names += len(names)
+        bad = truthiness_tests(fi, names)
+        res.ob("%s: names bound to the \"$\" member %s are used as truth values: %s" % (short(q) if q.count(".") > 2 else q, sorted(names), [norm(t)[:40] for e, t in bad] or "never"))
+        for e, t in bad[:1]:
+            res.fail(rule.id, "json-value-truth-tested::%s" % q, ctx.loc(q, e),
+                     "%s decides on the truth of `%s`, the \"$\" member of a typed value (`%s`): 0, 0.0 and the empty string are values" % (short(q) if q.count(".") > 2 else q, e.id, norm(t)[:50]),
+                     "an attribute holding the int 0 (written {\"$\": 0, \"type\": \"xsd:int\"}) or Literal('', langtag='en') is written and cannot be read back")
+    if not n_names:
+        res.ob("the JSON reader binds the \"$\" member to no name: it cannot be truth-tested by name", nontrivial=False)
+    return res
+
+
+RULES.setdefault("C01", []).append(Rule("C01.R20", "the \"$\" member of a typed JSON value is never used as a truth value", 0, json_value_truthiness, "F-BOOL",
+                                        "0, 0.0 and empty typed strings survive the round trip"))
+RULES.setdefault("C11", []).append(Rule("C11.R20", "the \"$\" member of a typed JSON value is never used as a truth value (shared with C01.R20)", 0, json_value_truthiness, "F-BOOL",
+                                        "foreign JSON holding {\"$\": 0, ..} or {\"$\": \"\", \"lang\": ..} loads with that value"))
+
+
+# ------------------------------------------------------------------------------------------ C10.R20: the structure being written is not consumed
+def json_structure_not_consumed(ctx: Ctx, rule):
+    """The JSON reader takes its input apart (`del content["bundle"]`, `del jc["prefix"]`).  On the write path, the structure the
+    encoder hands to json.dump (what `default()` returns, what `serialize()` dumps) is never passed to a function that deletes,
+    pops or overwrites entries of that parameter - directly or by handing it on."""
+    res = RuleResult()
+    # parameters a JS function consumes
+    destructive = {}
+    changed = True
+    funcs = {q: fi for q, fi in ctx.p.functions.items() if fi.module == JS and not isinstance(fi.node, ast.Lambda)}
+    while changed:
+        changed = False
+        for q, fi in funcs.items():
+            for i, pn in enumerate(fi.params):
+                if (q, i) in destructive or pn == "self":
+                    continue
+                hit = None
+                for n in walk_function(fi.node):
+                    if isinstance(n, ast.Delete) and any(isinstance(t, ast.Subscript) and isinstance(t.value, ast.Name) and t.value.id == pn for t in n.targets):
+                        hit = n
+                    elif isinstance(n, ast.Call) and isinstance(n.func, ast.Attribute) and isinstance(n.func.value, ast.Name) and n.func.value.id == pn and n.func.attr in ("pop", "popitem", "clear", "update", "setdefault"):
+                        hit = n
+                    elif isinstance(n, ast.Assign) and any(isinstance(t, ast.Subscript) and isinstance(t.value, ast.Name) and t.value.id == pn for t in n.targets):
+                        hit = n
+                    elif isinstance(n, ast.Call) and isinstance(n.func, ast.Name):
+                        r = ctx.p.resolve_name(fi.module, n.func.id)
+                        if r and r[0] == "func":
+                            for j, a in enumerate(n.args):
+                                if isinstance(a, ast.Name) and a.id == pn and (r[1], j) in destructive:
+                                    hit = n
+                if hit is not None:
+                    destructive[(q, i)] = hit
+                    changed = True
+    res.ob("parameters the JSON module's functions take apart: %s" % sorted("%s(%s)" % (q.rsplit(".", 1)[1], funcs[q].params[i]) for q, i in destructive))
+    roots = [JS + ".ProvJSONSerializer.serialize", JS + ".ProvJSONEncoder.default"]
+    n_sites = 0
+    for rq in roots:
+        if rq not in ctx.p.functions:
+            raise AnalysisError("anchor vanished: function %s" % rq)
+        for q in ctx.helper_closure(rq, 2):
+            fi = funcs.get(q)
+            if fi is None:
+                continue
+            written = {r.value.id for r in walk_function(fi.node) if isinstance(r, ast.Return) and isinstance(r.value, ast.Name)}
+            for c in calls_in(fi.node):
+                if call_name(c) in ("dump", "dumps") and c.args and isinstance(c.args[0], ast.Name):
+                    written.add(c.args[0].id)
+            for c in calls_in(fi.node):
+                if not isinstance(c.func, ast.Name):
+                    continue
+                r = ctx.p.resolve_name(fi.module, c.func.id)
+                if not (r and r[0] == "func"):
+                    continue
+                for j, a in enumerate(c.args):
+                    if isinstance(a, ast.Name) and a.id in written:
+                        n_sites += 1
+                        bad = (r[1], j) in destructive
+                        res.ob("%s: the structure `%s` it writes is passed to %s: which takes it apart: %s" % (short(q) if q.count(".") > 2 else q, a.id, c.func.id, bad))
+                        if bad:
+                            res.fail(rule.id, "written-structure-consumed::%s::%s" % (q, c.func.id), ctx.loc(q, c),
+                                     "%s hands `%s`, the structure about to be written, to %s, which deletes entries from that parameter (%s)" % (short(q) if q.count(".") > 2 else q, a.id, c.func.id, norm(destructive[(r[1], j)])[:40]),
+                                     'with DEBUG logging on, the emitted PROV-JSON has no "prefix" block and no "bundle" block: an independent reader cannot resolve a single name')
+    res.ob("calls on the write path that hand the written structure to another function of the module: %d" % n_sites, nontrivial=False)
+    return res
+
+
+RULES.setdefault("C10", []).append(Rule("C10.R20", "the structure handed to json.dump is never passed to a function that takes its argument apart", 1, json_structure_not_consumed, "F-OWN",
+                                        "the emitted PROV-JSON carries its prefix and bundle blocks whatever the logging configuration"))
+RULES.setdefault("C01", []).append(Rule("C01.R22", "the structure handed to json.dump is never consumed on the way (shared with C10.R20)", 1, json_structure_not_consumed, "F-OWN",
+                                        "what is written is what was encoded"))
